@@ -8,6 +8,7 @@ import (
 	"strings"
 
 	"golang.org/x/tools/go/callgraph"
+	"golang.org/x/tools/go/packages"
 	"golang.org/x/tools/go/ssa"
 
 	"risorcheck/core"
@@ -23,7 +24,9 @@ func init() {
 			"strings.Repeat/bytes.Repeat counts on that surface that are differences of run-time values are clamped (R2b); " +
 			"(R3) no function on that surface converts the possibly-nil pointer result of a parse/compile helper to an interface without a nil test (typed nil), and no function tests an accessor's result for nil on one path while converting/dereferencing the same accessor's result unguarded on a sibling path (R3b); " +
 			"(R4) native recursion over script-controlled structure is bounded: recursive methods over self-containable containers carry a re-entrancy guard or depth bound, and the recursive-descent parser carries a depth counter; " +
-			"(R5) writer/reader agreement for templated strings: the parser appends exactly one expression per variable fragment, which is what the compiler indexes.",
+			"(R5) writer/reader agreement for templated strings: the parser appends exactly one expression per variable fragment, which is what the compiler indexes; " +
+			"(R6) the message-formatting methods of the front end's error types (and what they call) index or slice a string/slice only with a bound that is computed from, or tested against, the length of that value; " +
+			"(R7) close() of a channel kept in a struct field follows a close-once idiom (sync.Once, deferred recover, field reset after the close, or the constructor's single goroutine).",
 		NotCovered:  "Nil dereference, index, type-assertion and arithmetic panics in general before the VM's recover exists; memory exhaustion; panics inside host-supplied builtins.",
 		Assumptions: []string{"recover() only stops a panic when called directly by the deferred function (Go spec)", "call graph = VTA over CHA; reflection is opaque", "net/http recovers panics in handler goroutines"},
 		Rules: []*core.Rule{
@@ -32,6 +35,8 @@ func init() {
 			{ID: "C03-R3", Title: "typed-nil and nil-belief contradictions on the unprotected surface", Floor: 6, Run: c03r3},
 			{ID: "C03-R4", Title: "bounded native recursion on script-controlled structure", Floor: 3, Run: c03r4},
 			{ID: "C03-R5", Title: "template fragments and expressions are paired", Floor: 1, Run: c03r5},
+			{ID: "C03-R6", Title: "error renderers index and slice only under a length test", Floor: 5, Run: formatterBounds},
+			{ID: "C03-R7", Title: "a channel field is closed at most once", Floor: 5, Run: func(c *core.Ctx) { closeOnce(c, "") }},
 		},
 	})
 }
@@ -1206,4 +1211,197 @@ func isRecvValue(v ssa.Value, recv *ssa.Parameter) bool {
 		}
 	}
 	return false
+}
+
+// errorFormatters: the message-formatting methods of the error types returned
+// by the front end, with the repository functions they (statically) call.
+func errorFormatters(p *core.Program) []*ssa.Function {
+	var roots []*ssa.Function
+	for _, rel := range []string{"parser", "errz", "compiler", "lexer"} {
+		if !p.HasPkg(rel) {
+			continue
+		}
+		pk := p.Pkg(rel)
+		for _, name := range pk.Types.Scope().Names() {
+			tn, ok := pk.Types.Scope().Lookup(name).(*types.TypeName)
+			if !ok || !strings.Contains(strings.ToLower(name), "err") {
+				continue
+			}
+			nt, ok := tn.Type().(*types.Named)
+			if !ok {
+				continue
+			}
+			for _, m := range core.Methods(nt) {
+				if !m.Exported() {
+					continue
+				}
+				sig := m.Type().(*types.Signature)
+				if sig.Params().Len() == 0 && sig.Results().Len() == 1 && core.IsStringType(sig.Results().At(0).Type()) {
+					if sf := p.SSAFunc(m); sf != nil && sf.Blocks != nil {
+						roots = append(roots, sf)
+					}
+				}
+			}
+		}
+	}
+	seen := map[*ssa.Function]bool{}
+	var out []*ssa.Function
+	q := roots
+	for len(q) > 0 {
+		f := q[0]
+		q = q[1:]
+		if seen[f] || !core.RepoFunc(f) || f.Blocks == nil {
+			continue
+		}
+		seen[f] = true
+		out = append(out, f)
+		q = append(q, f.AnonFuncs...)
+		for _, b := range f.Blocks {
+			for _, in := range b.Instrs {
+				if ci, ok := in.(ssa.CallInstruction); ok {
+					if cal := ci.Common().StaticCallee(); cal != nil {
+						q = append(q, cal)
+					}
+				}
+			}
+		}
+	}
+	sort.Slice(out, func(i, j int) bool { return core.SSAName(out[i]) < core.SSAName(out[j]) })
+	return out
+}
+
+// formatterBounds (C03-R6, C20-R6): rendering an error never indexes or slices
+// with a bound that no dominating test relates to the length of the indexed
+// value.  Token positions may lie one or two columns past the end of the quoted
+// line (the lexer hands out EOF tokens past the input), so a renderer that
+// slices the source line by a column panics in the caller for such errors.
+func formatterBounds(c *core.Ctx) {
+	p := c.P
+	fns := errorFormatters(p)
+	if len(fns) == 0 {
+		core.Undecidedf("no error-formatting methods found")
+	}
+	for _, f := range fns {
+		sites := core.UnguardedIndexing(f)
+		msg := ""
+		for _, s := range sites {
+			msg += "; " + s.What + " at " + p.Pos(s.Instr.Pos())
+		}
+		c.Check(len(sites) == 0, core.SSAName(f)+"|indexing-guarded", p.Pos(f.Pos()),
+			"every index/slice operation of "+f.Name()+" (reached when an error is rendered) is bounded by a dominating comparison with the length of the indexed value"+msg)
+	}
+	c.Stat("formatter_functions", len(fns))
+}
+
+// closeOnce (C03-R7, C07-R6): close() of a channel held in a struct field can
+// be reached again on a later call unless the site follows one of the idioms
+// the repository uses: inside (sync.Once).Do, under a deferred recover, followed
+// by a reset of the field in the same block, or in the single goroutine started
+// by the constructor that made the channel.  A second close panics; in vm.stop
+// it does so after the run's own recover has already returned.
+func closeOnce(c *core.Ctx, onlyPkg string) {
+	p := c.P
+	n := 0
+	p.AllDecls(func(pk *packages.Package, fn *types.Func, fd *ast.FuncDecl) {
+		if fd.Body == nil || strings.HasSuffix(p.Fset.Position(fd.Pos()).Filename, "_test.go") {
+			return
+		}
+		rel := core.RelPkg(pk.Types)
+		if onlyPkg != "" && rel != onlyPkg {
+			return
+		}
+		info := pk.TypesInfo
+		idx := 0
+		walkStack(fd.Body, func(nd ast.Node, stack []ast.Node) bool {
+			ce, ok := nd.(*ast.CallExpr)
+			if !ok || !isBuiltinCall(info, ce, "close") || len(ce.Args) != 1 {
+				return true
+			}
+			f := fieldOf(info, ce.Args[0])
+			if f == nil {
+				return true // a local or parameter: owned by this activation
+			}
+			n++
+			idx++
+			why := ""
+			// enclosing literals, innermost first
+			for i := len(stack) - 1; i >= 0 && why == ""; i-- {
+				switch x := stack[i].(type) {
+				case *ast.FuncLit:
+					if directRecover(info, x.Body) {
+						why = "the enclosing deferred function recovers"
+					}
+					if i > 0 {
+						if call, ok := stack[i-1].(*ast.CallExpr); ok {
+							if cal := calleeOf(info, call); cal != nil && cal.Name() == "Do" && core.IsNamed(core.RecvNamed(cal), "sync", "Once") {
+								why = "inside sync.Once.Do"
+							}
+						}
+					}
+					// the constructor's own goroutine
+					for j := i - 1; j >= 0; j-- {
+						if g, ok := stack[j].(*ast.GoStmt); ok {
+							inLoop := false
+							for _, s := range stack[:j] {
+								switch s.(type) {
+								case *ast.ForStmt, *ast.RangeStmt:
+									inLoop = true
+								}
+							}
+							if !inLoop && madeHere(info, fd, f) {
+								why = "closed by the single goroutine started by the constructor that made the channel"
+							}
+							_ = g
+						}
+					}
+				case *ast.BlockStmt:
+					// reset of the same field later in the same block
+					for _, s := range x.List {
+						if s.Pos() <= ce.Pos() {
+							continue
+						}
+						if as, ok := s.(*ast.AssignStmt); ok {
+							for _, l := range as.Lhs {
+								if fieldOf(info, l) == f {
+									why = "the field is reset right after the close"
+								}
+							}
+						}
+					}
+				}
+			}
+			if why == "" && protectiveDefer(p, info, fd.Body) != token.NoPos {
+				why = "the function recovers"
+			}
+			c.Check(why != "", rel+"."+declName(fd)+"|close:"+f.Name()+"#"+itoa(idx), posOf(p, ce),
+				"close("+exprStr(ce.Args[0])+") cannot be executed twice on the same channel"+ifs(why != "", " ("+why+")")+ifs(why == "", ": the field keeps the closed channel, so the next call closes it again and panics"))
+			return true
+		})
+	})
+	c.Stat("close_sites", n)
+}
+
+// madeHere: fd assigns field f from make(chan ...) (composite literal or assignment).
+func madeHere(info *types.Info, fd *ast.FuncDecl, f *types.Var) bool {
+	found := false
+	ast.Inspect(fd.Body, func(n ast.Node) bool {
+		switch x := n.(type) {
+		case *ast.KeyValueExpr:
+			if id, ok := x.Key.(*ast.Ident); ok && info.Uses[id] == f {
+				if ce, ok := ast.Unparen(x.Value).(*ast.CallExpr); ok && isBuiltinCall(info, ce, "make") {
+					found = true
+				}
+			}
+		case *ast.AssignStmt:
+			for i, l := range x.Lhs {
+				if fieldOf(info, l) == f && i < len(x.Rhs) {
+					if ce, ok := ast.Unparen(x.Rhs[i]).(*ast.CallExpr); ok && isBuiltinCall(info, ce, "make") {
+						found = true
+					}
+				}
+			}
+		}
+		return true
+	})
+	return found
 }
